@@ -101,13 +101,41 @@ exactly when a consulted hash result was out of range. -/
 theorem run_failstop (ops : List Op) (hv : ValidFrom hf Sys.init ops) : FailStopOK hf (run hf Sys.init ops) :=
   .of hf (run_refines hf ops hv) (run_FS hf ops Sys.init)
 
-/-- NOT PROVED (statement only): for a family that is in range for every table
-size `m ≥ 1`, no history aborts.  It follows from `run_failstop` once every
-logged call is shown to carry `m ≥ 1` (all of them carry the current or the
-pending bucket count, both `≥ 1` by the invariant); that bookkeeping is not
-threaded through the loop specifications. -/
-def run_no_abort_in_range_statement : Prop :=
-  (∀ f k m, 1 ≤ m → hf f k m < m) →
-    ∀ ops, ValidFrom hf Sys.init ops → ∃ r, (run hf Sys.init ops).val = .ok r
+/-- a hash-function family that honours its contract: a value in `[0, m)` for every `m ≥ 1` -/
+def InRange : Prop := ∀ f k m, 1 ≤ m → hf f k m < m
+
+/-- with an in-range family an operation that satisfies a fail-stop triple does
+not stop at all: it returns, and the postcondition holds -/
+theorem returns_of_in_range {α : Type} {m : R α} {P : Tr → α → Prop} (hr : InRange hf) (hs : m.Spec P)
+    (hfs : m.FailStop hf) : ∃ a, m.val = .ok a ∧ P m.tr a := by
+  cases hv : m.val with
+  | ok a => exact ⟨a, rfl, hs.of_ok hv⟩
+  | error e =>
+    exfalso
+    have he : e = .abort := by have := hs.2; rw [hv] at this; exact this
+    subst he
+    obtain ⟨c, hc, hbad⟩ := hfs.mp hv
+    have := hr c.fn c.key c.m (hs.pos c hc)
+    unfold Call.bad at hbad
+    omega
+
+/-- **In-range families never abort**: for every history inside the documented
+domain the run returns, the invariant holds and every answer is the one the
+multiset specification prescribes (C03/C04 without the `abort` alternative).
+`cstl_hash_div` and `cstl_hash_mul` are in range by part a of C17. -/
+theorem run_total_in_range (hr : InRange hf) (ops : List Op) (hv : ValidFrom hf Sys.init ops) :
+    ∃ r, (run hf Sys.init ops).val = .ok r ∧ SysInv hf r.1 ∧ SpecRun (absOf Sys.init) ops r.2 (absOf r.1) := by
+  obtain ⟨r, h1, h2⟩ := returns_of_in_range hf hr (run_refines hf ops hv) (run_FS hf ops Sys.init)
+  exact ⟨r, h1, h2.1⟩
+
+/-- the harness's `k mod m` / `(k/2) mod m` / constant-0 family is in range -/
+example : InRange Ex.hf0 := by
+  intro f k m hm
+  unfold Ex.hf0
+  split
+  · exact Nat.mod_lt _ (by omega)
+  · split
+    · exact Nat.mod_lt _ (by omega)
+    · omega
 
 end Cstl.Hash
